@@ -422,7 +422,9 @@ def j8_skip_total(ctx):
             oks += 1
             skips = [e for e in p if e[0] == "call" and name_is(e[2], "read_to_end") and not name_is(e[2], "XmlReader::read_to_end")]
             def ok_of(c):
-                return any(e[0] == "switch" and e[2][0] == "discr" and strip_wrappers(e[2][1])[0] == "call" and strip_wrappers(e[2][1])[1] == c[1] and e[3] == 0 for e in p)
+                # checked directly (`r?`, `match r`) or through a combination of results (`r1.and(r2)?`)
+                # the Ok side of a test of the result: arm 0 of a `match`/`?`, or the fall-through of `if let Err(e) = r { return .. }`
+                return any(e[0] == "switch" and e[2][0] == "discr" and e[3] != 1 and has_subterm(e[2][1], lambda s2: s2[0] == "call" and s2[1] == c[1]) for e in p)
             la = decision_on(p, lambda t: t[0] == "discr" and is_self_field(strip_wrappers(t[1]), "lookahead"))
             if skips:
                 just = all(ok_of(c) for c in skips)
@@ -438,7 +440,17 @@ def j8_skip_total(ctx):
         ctx.floor("J8", "Ok exits of XmlReader::read_to_end", oks, 4, config=cfg)
 
 
-RULES = [("A", a_audit), ("J2b", j2b_fallthrough), ("RD", rd_reader_total), ("J1", j1_peek_then_next), ("J1b", j1b_preconditions), ("J2", j2_flags), ("J3", j3_config), ("J4", j4_merging), ("J6", j6_just_filled), ("J7", j7_output_space), ("J8", j8_skip_total)]
+def j9_skip_without_buffer(ctx):
+    """the end-name assertions and unreachable!() after a skipped element also rely on the feature-less
+    Deserializer::read_to_end consuming the whole element (C15 R7's row table re-evaluated)"""
+    import c15
+    n0 = len(ctx.obs)
+    c15.r7_skip_without_buffer(ctx)
+    for o in ctx.obs[n0:]:
+        o["rule"] = "J9"
+
+
+RULES = [("A", a_audit), ("J2b", j2b_fallthrough), ("RD", rd_reader_total), ("J1", j1_peek_then_next), ("J1b", j1b_preconditions), ("J2", j2_flags), ("J3", j3_config), ("J4", j4_merging), ("J6", j6_just_filled), ("J7", j7_output_space), ("J8", j8_skip_total), ("J9", j9_skip_without_buffer)]
 
 
 def THOROUGH_EXTRA(ctx):
